@@ -44,11 +44,11 @@ META = {
     "C07": dict(technique="Lean 4 proof (syntactic program equalities on the Impl generators) + differential run",
                 text="Theorems hybrid_empty_eq_euler, hybrid_all_eq_grl, hybrid_foreign_names, hybrid_slotwise: program equalities for every model, sort order, option and subset. "
                      "On the real code: hybrid body text equals the Euler / GRL body text for empty / full subsets and ignores foreign names; slot by slot bit-equality with the module's own Euler and GRL. "
-                     "GenValidRL.genHybrid_valid: the model's hybrid generator passes checkScheme for every well-formed model and every stiff set; SchemeEndToEnd.genHybrid_correct: slot by slot value.",
+                     "GenValidRL.genHybrid_valid: the model's hybrid generator passes checkScheme for every well-formed model and every stiff set; SchemeEndToEnd.genHybrid_correct: slot by slot value; genHybrid_all_value / genHybrid_none_value: with every state stiff the hybrid program writes what the GRL program writes, with none what the Euler program writes (by value, any input).",
                 note=TB + "The Impl generators mirror schemes.py; the tie is the body-text comparison and the validators."),
     "C12": dict(technique="Lean 4 proof (two validated programs for one model/layout agree; progress) + translation validation + differential run",
                 text="Theorem C12.unused_equiv_rhs: two rhs programs (with / without removal) that pass checkRhs for the same model and layout return equal values in every slot for every input; "
-                     "removed_never_read (progress); GenValid.genRhs_removal_invariant: on the Impl layer the two generated programs agree for every well-formed model. "
+                     "removed_never_read (progress); GenValid.genRhs_removal_invariant and SchemeEndToEnd.gen{Euler,GRL,Hybrid}_removal_invariant: on the Impl layer the programs generated with and without removal write the same value into every slot (rhs and all three schemes), for every well-formed model. "
                      "Every program generated with remove_unused is validated against the layout (which rejects counter-numbered stores); results compared bit for bit, rhs and three "
                      "schemes, on NumPy, JAX and on two compiled C modules.",
                 note=TB),
